@@ -117,6 +117,8 @@ def enum_decl(e, vis="pub ", docs=False, derive=True):
         args = []
     if e["exhaustive"] is not None:
         args.append("exhaustive %s %s" % ("=" if e["syntax"] == "=" else ":", e["exhaustive"]) if e["syntax"] == "=" else "exhaustive: %s" % e["exhaustive"])
+    if e.get("args_rev"):
+        args.reverse()      # `exhaustive` written before the storage type
     lines.append("#[bitenum(%s)]" % ", ".join(args))
     if derive:
         lines.append("#[derive(Debug, PartialEq, Eq)]")
